@@ -621,7 +621,7 @@ def solve(assumptions, goal, timeout_ms=10000, extra_axioms=(), want_model=True,
     # machine), not wall-clock times, so that a verdict cannot flip because the machine is busy; the wall-clock
     # timeout is only a distant safety net.  timeout_ms scales the limits (120 s == factor 1).
     f = max(0.25, timeout_ms / 120000.0)
-    stages = [(False, int(4e6 * f)), (True, int(1.5e7 * f)), (False, int(6e7 * f)), (True, int(2e8 * f))]
+    stages = [(False, int(4e6 * f)), (True, int(1.5e7 * f)), (False, int(5e7 * f)), (True, int(5e7 * f))]
     wall_ms = int(max(900000, 8 * timeout_ms))
     total = 0.0
     cand = None
@@ -638,7 +638,12 @@ def solve(assumptions, goal, timeout_ms=10000, extra_axioms=(), want_model=True,
         STATS['z3_s'] += dt
         name = 'z3(mbqi)' if mbqi else 'z3'
         if r == z3.unsat:
-            return Verdict.PROVED, None, {'backend': name, 's': total}
+            used = None
+            try:
+                used = sv.statistics().get_key_value('rlimit count')
+            except Exception:
+                pass
+            return Verdict.PROVED, None, {'backend': name, 's': total, 'rlimit_used': used, 'rlimit_cap': rl}
         if r == z3.sat:
             return Verdict.REFUTED, (sv.model() if want_model else None), {'backend': name, 's': total}
         reason = sv.reason_unknown()
